@@ -238,7 +238,24 @@ func genMutant(t *rapid.T) Case {
 	n := rapid.IntRange(1, 3).Draw(t, "nmut")
 	for ; n > 0 && len(toks) > 0; n-- {
 		i := rapid.IntRange(0, len(toks)-1).Draw(t, "pos")
-		switch rapid.IntRange(0, 8).Draw(t, "mut") {
+		switch rapid.IntRange(0, 9).Draw(t, "mut") {
+		case 9:
+			// a type keyword of a neighbouring dialect (SQL/MM curves and surfaces, the ring
+			// type this library has but WKT has not) in place of a keyword of the text
+			var kws []int
+			for j, tk := range toks {
+				if len(tk) > 3 && tk[0] >= 'A' && tk[0] <= 'Z' && tk != "EMPTY" {
+					kws = append(kws, j)
+				}
+			}
+			if len(kws) > 0 {
+				j := rapid.SampledFrom(kws).Draw(t, "kwpos")
+				suffix := ""
+				if k := strings.IndexByte(toks[j], ' '); k >= 0 {
+					suffix = toks[j][k:]
+				}
+				toks[j] = rapid.SampledFrom([]string{"LINEARRING", "LINEARRING", "LinearRing", "CIRCULARSTRING", "COMPOUNDCURVE", "CURVEPOLYGON", "MULTICURVE", "MULTISURFACE", "TRIANGLE", "TIN", "POLYHEDRALSURFACE", "GEOMETRY", "BOX", "RING", "LINE", "MULTIGEOMETRY"}).Draw(t, "foreignkw") + suffix
+			}
 		case 7, 8: // a generated plain-decimal or exponent literal: any number of leading zeros,
 			// integer digits and fractional digits (0..40), few or many significant digits
 			var sb strings.Builder
